@@ -37,11 +37,6 @@ Inductive last_arg {A : Type} (sel : opt -> option A) (zero : A) : list opt -> A
     sel o = Some a -> (forall o', In o' os2 -> sel o' = None) ->
     last_arg sel zero (os1 ++ o :: os2) a.
 
-(* the same as a function (used by the boolean property of the correspondence) *)
-Definition picks {A : Type} (sel : opt -> option A) (os : list opt) : list A :=
-  flat_map (fun o => match sel o with Some a => [a] | None => [] end) os.
-Definition last_of {A : Type} (sel : opt -> option A) (zero : A) (os : list opt) : A :=
-  last (picks sel os) zero.
 
 Lemma picks_none {A} (sel : opt -> option A) os :
   (forall o, In o os -> sel o = None) -> picks sel os = [].
@@ -94,30 +89,24 @@ Proof.
     + apply last_arg_snoc_none; assumption.
 Qed.
 
-Definition sel_base (o : opt) := match o with OBaseURL s => Some s | _ => None end.
-Definition sel_timeout (o : opt) := match o with OTimeout d => Some d | _ => None end.
-Definition sel_logging (o : opt) := match o with OLogging b => Some b | _ => None end.
-Definition sel_headers (o : opt) := match o with OHeaders h => Some h | _ => None end.
-Definition uses (os : list opt) : list M :=
-  flat_map (fun o => match o with OUse m => [m] | _ => [] end) os.
 
-Lemma base_last_wins os : last_arg sel_base EmptyString os (c_base (apply_opts os)).
+Lemma base_last_wins (os : list opt) : last_arg sel_base EmptyString os (c_base (apply_opts os)).
 Proof. apply (last_wins sel_base c_base). intros [s|d|b|h|m] r; reflexivity. Qed.
-Lemma timeout_last_wins os : last_arg sel_timeout 0%Z os (c_timeout (apply_opts os)).
+Lemma timeout_last_wins (os : list opt) : last_arg sel_timeout 0%Z os (c_timeout (apply_opts os)).
 Proof. apply (last_wins sel_timeout c_timeout). intros [s|d|b|h|m] r; reflexivity. Qed.
-Lemma logging_last_wins os : last_arg sel_logging false os (c_logging (apply_opts os)).
+Lemma logging_last_wins (os : list opt) : last_arg sel_logging false os (c_logging (apply_opts os)).
 Proof. apply (last_wins sel_logging c_logging). intros [s|d|b|h|m] r; reflexivity. Qed.
-Lemma headers_last_wins os : last_arg sel_headers None os (c_headers (apply_opts os)).
+Lemma headers_last_wins (os : list opt) : last_arg sel_headers None os (c_headers (apply_opts os)).
 Proof. apply (last_wins sel_headers c_headers). intros [s|d|b|h|m] r; reflexivity. Qed.
 
-Lemma mws_all_uses os : c_mws (apply_opts os) = uses os.
+Lemma mws_all_uses (os : list opt) : c_mws (apply_opts os) = uses os.
 Proof.
   induction os as [|o os IH] using rev_ind; [reflexivity|].
   rewrite apply_opts_snoc. unfold uses in *. rewrite flat_map_app. cbn [flat_map].
   rewrite app_nil_r, <- IH. destruct o; cbn; rewrite ?app_nil_r; reflexivity.
 Qed.
 
-Lemma conf_of_options os :
+Lemma conf_of_options (os : list opt) :
   last_arg sel_base EmptyString os (c_base (apply_opts os)) /\
   last_arg sel_timeout 0%Z os (c_timeout (apply_opts os)) /\
   last_arg sel_logging false os (c_logging (apply_opts os)) /\
@@ -137,27 +126,11 @@ Notation ctor := (ctor M Client).
 Notation registry := (registry M Client).
 Notation op := (op M Client).
 Notation outcome := (outcome Client).
+Notation first_ctor := (first_ctor Client).
+Notation outcome_spec := (outcome_spec Client).
 
-(* declarative reading of a history prefix *)
-Fixpoint first_ctor (pre : list op) (t : nat) : option ctor :=
-  match pre with
-  | [] => None
-  | Register t' c :: pre' => if Nat.eqb t' t then Some c else first_ctor pre' t
-  | NewRest _ _ :: pre' => first_ctor pre' t
-  end.
 
-Definition outcome_spec (pre : list op) (o : op) : outcome :=
-  match o with
-  | Register t c =>
-      match first_ctor pre t with Some _ => PanicDup t | None => Registered end
-  | NewRest t os =>
-      match first_ctor pre t with
-      | None => PanicNotReg t
-      | Some c => Built (c (apply_opts os))
-      end
-  end.
-
-Lemma first_ctor_none pre t :
+Lemma first_ctor_none (pre : list op) t :
   first_ctor pre t = None <-> (forall c, ~ In (Register t c) pre).
 Proof.
   induction pre as [|o pre IH]; cbn.
@@ -173,7 +146,7 @@ Proof.
       * intros H c Hin. apply (H c). right. exact Hin.
 Qed.
 
-Lemma first_ctor_some pre t c :
+Lemma first_ctor_some (pre : list op) t c :
   first_ctor pre t = Some c <->
   exists p1 p2, pre = p1 ++ Register t c :: p2 /\ forall c', ~ In (Register t c') p1.
 Proof.
@@ -236,11 +209,11 @@ Proof.
     + cbn [first_ctor]. destruct (lookup Client r t'); inversion Es; subst; reflexivity.
 Qed.
 
-Lemma lookup_state_after pre t :
+Lemma lookup_state_after (pre : list op) t :
   lookup Client (state_after Client pre) t = first_ctor pre t.
 Proof. unfold state_after. rewrite lookup_run. reflexivity. Qed.
 
-Lemma step_spec pre o :
+Lemma step_spec (pre : list op) o :
   snd (step Client (state_after Client pre) o) = outcome_spec pre o.
 Proof.
   destruct o as [t c|t os]; cbn [step outcome_spec]; rewrite lookup_state_after;
@@ -267,7 +240,7 @@ Proof.
 Qed.
 
 (* the outcome of every operation of every history *)
-Lemma history_outcome pre o post :
+Lemma history_outcome (pre : list op) o post :
   nth_error (snd (run Client [] (pre ++ o :: post))) (List.length pre) = Some (outcome_spec pre o).
 Proof.
   rewrite run_app. pose proof (run_length pre []) as Hl.
@@ -293,7 +266,7 @@ Proof.
 Qed.
 
 (* Prop-level reading of outcome_spec *)
-Lemma register_panics_iff pre t c :
+Lemma register_panics_iff (pre : list op) t c :
   outcome_spec pre (Register t c) = PanicDup t <-> exists c', In (Register t c') pre.
 Proof.
   cbn. destruct (first_ctor pre t) as [c0|] eqn:E.
@@ -303,19 +276,19 @@ Proof.
     exact (proj1 (first_ctor_none pre t) E c' Hin).
 Qed.
 
-Lemma register_ok_iff pre t c :
+Lemma register_ok_iff (pre : list op) t c :
   outcome_spec pre (Register t c) = Registered <-> forall c', ~ In (Register t c') pre.
 Proof.
   cbn. rewrite <- first_ctor_none. destruct (first_ctor pre t); split; try discriminate; reflexivity.
 Qed.
 
-Lemma newrest_panics_iff pre t os :
+Lemma newrest_panics_iff (pre : list op) t os :
   outcome_spec pre (NewRest t os) = PanicNotReg t <-> forall c, ~ In (Register t c) pre.
 Proof.
   cbn. rewrite <- first_ctor_none. destruct (first_ctor pre t); split; try discriminate; reflexivity.
 Qed.
 
-Lemma newrest_builds p1 p2 t c os :
+Lemma newrest_builds (p1 p2 : list op) t c os :
   (forall c', ~ In (Register t c') p1) ->
   outcome_spec (p1 ++ Register t c :: p2) (NewRest t os) = Built (c (apply_opts os)).
 Proof.
@@ -372,9 +345,6 @@ Proof.
     rewrite <- !app_assoc. reflexivity.
 Qed.
 
-Definition nested_trace (logging : bool) (tags : list nat) : rt :=
-  (if logging then [ELogIn] else []) ++ map EIn tags ++ [EBase] ++ rev (map EOut tags)
-  ++ (if logging then [ELogOut] else []).
 
 Lemma build_tags_trace (tags : list nat) (logging : bool) :
   build (map tag_mw tags) logging [EBase] = nested_trace logging tags.
@@ -383,10 +353,6 @@ Proof.
   destruct logging; cbn; rewrite <- ?app_assoc, ?app_nil_r; reflexivity.
 Qed.
 
-(* the order in which the wrappers (and finally the base transport) are entered *)
-Definition is_entry (e : event) : bool :=
-  match e with EIn _ | ELogIn | EBase => true | EOut _ | ELogOut => false end.
-Definition entries (t : rt) : rt := filter is_entry t.
 
 Lemma filter_entry_in tags : filter is_entry (map EIn tags) = map EIn tags.
 Proof. induction tags as [|a l IH]; cbn; [reflexivity|]. rewrite IH. reflexivity. Qed.
@@ -438,3 +404,27 @@ Lemma timeout_refuted_witness :
   client_timeout all_defects r <> c_timeout r /\
   (client_timeout all_defects r < 0)%Z.
 Proof. vm_compute. repeat split; discriminate. Qed.
+
+(* ------------------------------------------------------------------ *)
+(* all of it together: NewRest on a generated client                   *)
+
+Lemma conf_chain_trace (os : list (opt nat)) :
+  build_conf tag_mw (apply_opts os) [EBase] =
+  nested_trace (last_of sel_logging false os) (uses os).
+Proof.
+  unfold build_conf. rewrite mws_all_uses, build_tags_trace.
+  rewrite (last_arg_fn _ _ _ _ (logging_last_wins os)). reflexivity.
+Qed.
+
+Lemma newrest_generated_client (F : fenv) (g t : nat)
+      (p1 p2 : list (op nat (gclient nat))) (os : list (opt nat)) :
+  (forall c', ~ In (Register t c') p1) ->
+  outcome_spec (gclient nat) (p1 ++ Register t (gen_ctor F tag_mw [EBase] g) :: p2) (NewRest t os) =
+  Built {| g_iface := g;
+           g_conf := apply_opts os;
+           g_timeout := client_timeout F (apply_opts os);
+           g_transport := nested_trace (last_of sel_logging false os) (uses os) |}.
+Proof.
+  intros Hn. rewrite newrest_builds by exact Hn. unfold gen_ctor.
+  rewrite conf_chain_trace. reflexivity.
+Qed.
